@@ -93,7 +93,7 @@ def root_and_chain(node):
     while True:
         if isinstance(n, (ast.Subscript, ast.Attribute, ast.Starred)):
             n = n.value
-        elif isinstance(n, ast.Call) and isinstance(n.func, ast.Attribute) and n.func.attr in ("get", "setdefault", "contents", "copy", "view", "__getitem__"):
+        elif isinstance(n, ast.Call) and isinstance(n.func, ast.Attribute) and n.func.attr in ("get", "setdefault", "view", "__getitem__"):
             n = n.func.value
         elif isinstance(n, ast.Call) and isinstance(n.func, ast.Name) and n.func.id in ("getattr",) and n.args:
             n = n.args[0]
@@ -190,7 +190,8 @@ class FuncInfo:
 
 
 class ModuleScan(ast.NodeVisitor):
-    def __init__(self, module, tree, pkg_modules):
+    def __init__(self, module, tree, pkg_modules, pkg_methods=()):
+        self.pkg_methods = set(pkg_methods)
         self.module = module
         self.tree = tree
         self.pkg_modules = pkg_modules
@@ -527,12 +528,14 @@ class ModuleScan(ast.NodeVisitor):
                     cname = dotted(f)
                     if cname:
                         self.calls.setdefault(fi.qual, set()).add(cname)
-                    if isinstance(f, ast.Attribute) and f.attr in MUTATORS:
+                    if isinstance(f, ast.Attribute) and f.attr in MUTATORS and f.attr not in self.pkg_methods:
                         b = base_of_expr(f.value)
                         if b[0] in ("self", "global", "default", "classattr", "param"):
                             sites.append({"module": self.module, "file": self.module + ".py", "func": fi.qual, "line": n.lineno,
                                           "end_line": getattr(st, "end_lineno", n.lineno), "base": b[0], "base_name": b[1],
-                                          "target": norm_target(f.value), "pattern": "mutcall", "guard_line": None, "detail": f.attr})
+                                          "target": norm_target(f.value),
+                                          "pattern": {"setdefault": "check_then_act", "add": "idem_store"}.get(f.attr, "mutcall"),
+                                          "guard_line": None, "detail": f.attr})
                     if isinstance(f, ast.Name) and f.id in ("setattr", "delattr") and n.args:
                         b = base_of_expr(n.args[0])
                         key = unparse(n.args[1]) if len(n.args) > 1 else "?"
@@ -567,41 +570,68 @@ class ModuleScan(ast.NodeVisitor):
                 if isinstance(n, ast.Assign) and isinstance(n.value, ast.Name) and any(norm_target(t) == tt for t in n.targets):
                     if tt in saved.get(n.value.id, ()):
                         restore = True
-            exclusive = self._exclusive_branches(node, [s["line"] for s in ss])
+            sequential = self._sequential(node, [s["line"] for s in ss])
             if restore:
                 for s in ss:
                     s["pattern"] = "set_restore"
-            elif not exclusive:
+            elif sequential:
                 for s in ss:
                     s["pattern"] = "multi_store"
         self.sites.extend(sites)
 
-    def _exclusive_branches(self, func, lines):
-        """True when the given statement lines all lie in pairwise different branches of one if/elif/else chain or try/except"""
-        def branches(st):
-            if isinstance(st, ast.If):
-                out = [st.body]
-                o = st.orelse
-                while len(o) == 1 and isinstance(o[0], ast.If):
-                    out.append(o[0].body)
-                    o = o[0].orelse
-                out.append(o)
-                return out
-            if isinstance(st, ast.Try):
-                return [st.body + st.orelse] + [h.body for h in st.handlers]
-            return None
+    def _sequential(self, func, lines):
+        """True when two of the given statement lines can execute one after the other on one straight path: the block
+        holding the earlier one also holds (directly or in a nested block of a LATER statement) the other one, with no
+        return / raise / break / continue directly in that block between them"""
+        paths = {}
 
-        def span(body):
-            return [(s.lineno, getattr(s, "end_lineno", s.lineno)) for s in body]
-        for n in self._own_nodes(func):
-            br = branches(n) if isinstance(n, (ast.If, ast.Try)) else None
-            if not br:
-                continue
-            where = []
-            for ln in lines:
-                hit = [i for i, b in enumerate(br) if any(a <= ln <= z for a, z in span(b))]
-                where.append(hit[0] if hit else None)
-            if None not in where and len(set(where)) == len(where):
+        def walk(body, path):
+            for idx, st in enumerate(body):
+                a, z = st.lineno, getattr(st, "end_lineno", st.lineno)
+                for ln in lines:
+                    if a <= ln <= z and ln not in paths:
+                        simple = not isinstance(st, (ast.If, ast.For, ast.While, ast.Try, ast.With, ast.FunctionDef, ast.ClassDef))
+                        if simple:
+                            paths[ln] = path + [(id(body), idx)]
+                if isinstance(st, (ast.FunctionDef, ast.AsyncFunctionDef, ast.ClassDef)):
+                    continue
+                for fld in ("body", "orelse", "finalbody"):
+                    sub = getattr(st, fld, None)
+                    if isinstance(sub, list):
+                        walk(sub, path + [(id(body), idx)])
+                for h in getattr(st, "handlers", []) or []:
+                    walk(h.body, path + [(id(body), idx)])
+        bodies = {}
+
+        def index(body):
+            bodies[id(body)] = body
+            for st in body:
+                if isinstance(st, (ast.FunctionDef, ast.AsyncFunctionDef, ast.ClassDef)):
+                    continue
+                for fld in ("body", "orelse", "finalbody"):
+                    sub = getattr(st, fld, None)
+                    if isinstance(sub, list):
+                        index(sub)
+                for h in getattr(st, "handlers", []) or []:
+                    index(h.body)
+        walk(func.body, [])
+        index(func.body)
+        ls = sorted(l for l in lines if l in paths)
+        for i, l1 in enumerate(ls):
+            for l2 in ls[i + 1:]:
+                p1, p2 = paths[l1], paths[l2]
+                blk, i1 = p1[-1]
+                hit = [q for q in p2 if q[0] == blk]
+                if not hit:
+                    continue
+                i2 = hit[0][1]
+                if i2 < i1:
+                    continue
+                if i2 == i1 and p1 != p2:
+                    continue
+                between = bodies[blk][i1 + 1:i2]
+                if any(isinstance(x, (ast.Return, ast.Raise, ast.Break, ast.Continue)) for x in between):
+                    continue
                 return True
         return False
 
@@ -621,10 +651,15 @@ def scan_package(repo):
     files = [f for f in sorted(os.listdir(pkg)) if f.endswith(".py")]
     mods = [f[:-3] for f in files]
     locations, sites, calls, funcs = [], [], {}, []
+    trees = {f: ast.parse(open(os.path.join(pkg, f)).read(), filename=f) for f in files}
+    pkg_methods = set()
+    for t in trees.values():
+        for n in ast.walk(t):
+            if isinstance(n, ast.ClassDef):
+                pkg_methods |= {m.name for m in n.body if isinstance(m, (ast.FunctionDef, ast.AsyncFunctionDef))}
     for f in files:
-        src = open(os.path.join(pkg, f)).read()
-        tree = ast.parse(src, filename=f)
-        ms = ModuleScan(f[:-3], tree, set(mods))
+        tree = trees[f]
+        ms = ModuleScan(f[:-3], tree, set(mods), pkg_methods)
         ms.scan()
         locations += ms.locations
         sites += ms.sites
